@@ -4,7 +4,7 @@ NOTES = "See DESIGN.md. Exit codes of ./check: 0 held, 1 VIOLATION (replayed on 
 PENDING = "check not built yet in this round (planned in DESIGN.md section 2); listed here until its harness lands"
 CHECKS = {
     "C11": {
-        "text": "Every feasible path of the real svg_transform.py code (parse_svg_transform on 1-3/1-4 operation lists in 6 separator styles, all Affine2D algebra methods, rect_to_rect for every alignment) is explored with all numbers as z3 reals; the SVG-spec oracle is an SMT validity query per path. Bounded in list length only; numbers are universally quantified.",
+        "text": "Every feasible path of the real svg_transform.py code (parse_svg_transform on 1-3/1-4 operation lists in 6 separator styles, all Affine2D algebra methods, rect_to_rect for every alignment) is explored with all numbers as z3 reals; the SVG-spec oracle is an SMT validity query per path. Bounded in list length only; numbers are universally quantified. Also: number lexing - op(numbers) with the numbers as symbolic character strings, `re` of the loaded module replaced by backtracking regex semantics over symbolic characters, oracle = SVG 1.1 number production.",
         "note": "floats modelled as reals; sin/cos/tan/hypot uninterpreted symbols shared with the oracle; round by contract; number lexing by float() outside (C10).",
         "design_ref": "DESIGN.md 2/C11",
     },
@@ -16,7 +16,7 @@ CHECKS.update({
         "design_ref": "DESIGN.md 2/C09",
     },
     "C13": {
-        "text": "svg_pathops/svg_types boolean-operation glue executed symbolically under an abstract Skia: for 1-3/1-4 operands with symbolic coordinates and every fill-rule assignment the region term handed back must be propositionally equivalent (z3) to the left fold of the set operation over Leaf(operand_i, fillType(rule_i)), leaves identified by provable coordinate equality; engine failures (solver-forked) must propagate. Refutations are replayed with real Skia and an independent winding-number sampler.",
+        "text": "svg_pathops/svg_types boolean-operation glue executed symbolically under an abstract Skia: for 1-3/1-4 operands with symbolic coordinates and every fill-rule assignment the region term handed back must be propositionally equivalent (z3) to the left fold of the set operation over Leaf(operand_i, fillType(rule_i)), leaves identified by provable coordinate equality; engine failures (solver-forked) must propagate. Refutations are replayed with real Skia and an independent winding-number sampler. Every abstract op()/simplify() may also return an empty path (explorer fork, matching emptiness assumption in the region equivalence); a quarter (quick) / all (thorough) of the cases are validated on the real Skia with battery operands.",
         "note": "decides only that picosvg asks Skia the right question and returns its answer; that Skia's op() is the set operation is trusted (C++). Snap band assumed empty (C09).",
         "design_ref": "DESIGN.md 2/C13",
     },
@@ -37,7 +37,7 @@ CHECKS["C20"] = {
     "design_ref": "DESIGN.md 2/C20",
 }
 CHECKS["C12"] = {
-    "text": "arc_to_cubic.py in five symbolic parts: degenerate cases (all arguments real); the _arc_to_cubic loop for an arbitrary centre parametrisation (segment count via ceil axioms + integer enumeration, every control/end point equal to the standard circular-arc cubic construction mapped onto the ellipse, last end point exactly the arc end); the 0.03% radial accuracy of the control points the real loop body yields, as a polynomial query in u=tan(D/4), s in [0,1] decided by nlsat; radii correction; centre computation for base arcs scaled by a symbolic k>0 (all magnitudes) and the sweep-sign / full-turn clauses for general symbolic arcs.",
+    "text": "arc_to_cubic.py in five symbolic parts: degenerate cases (all arguments real); the _arc_to_cubic loop for an arbitrary centre parametrisation (segment count via ceil axioms + integer enumeration, every control/end point equal to the standard circular-arc cubic construction mapped onto the ellipse, last end point exactly the arc end); the 0.03% radial accuracy of the control points the real loop body yields, as a polynomial query in u=tan(D/4), s in [0,1] decided by nlsat; radii correction; centre computation for base arcs scaled by a symbolic k>0 (all magnitudes) and the sweep-sign / full-turn clauses for general symbolic arcs. Radii of either sign and rotated ellipse frames in the radii/flags parts (direction = sign(theta_arc)*sign(rx*ry)).",
     "note": "sin/cos/tan/atan2/sqrt uninterpreted (values of libm outside); float constants snapped to the rationals they round (perturbation < 1e-14, absorbed by a 1e-9 margin); |theta_arc| >= pi <=> large-arc not encoded; centre checked on 3-4 base arcs x symbolic scale rather than for arbitrary arcs (general query is out of solver reach: probe in DESIGN).",
     "design_ref": "DESIGN.md 2/C12",
 }
@@ -88,7 +88,7 @@ CHECKS.update({
 })
 CHECKS.update({
     "C10": {
-        "text": "parse_svg_path on buffers whose characters are z3 Int code points: every buffer of length <= 3 (quick) / 4 (thorough) over a 40-symbol alphabet, plus token templates (concrete command letters and separators, symbolic number strings) and printing round-trips; the module's own regexes are re-implemented with Python's backtracking semantics over symbolic characters from their .pattern; oracle = recursive-descent recogniser of the SVG 1.1 BNF on the same buffer; per path an SMT validity query equates the parsed arguments.",
+        "text": "parse_svg_path on buffers whose characters are z3 Int code points: every buffer of length <= 3 (quick) / 4 (thorough) over a 40-symbol alphabet, plus token templates (concrete command letters and separators, symbolic number strings) and printing round-trips; the module's own regexes are re-implemented with Python's backtracking semantics over symbolic characters from their .pattern; oracle = recursive-descent recogniser of the SVG 1.1 BNF on the same buffer; per path an SMT validity query equates the parsed arguments. Also: the real ntos on floats known by their repr (concrete repr skeleton, symbolic digits; str/repr/int of the loaded module replaced) and two-parse call histories in one module instance.",
         "note": "float()/int() of a token modelled by positional arithmetic; buffers longer than the bounds and characters outside the alphabet are outside; SVG 1.1 BNF is the reference.",
         "design_ref": "DESIGN.md 2/C10",
     },
@@ -98,12 +98,12 @@ CHECKS.update({
         "design_ref": "DESIGN.md 2/C14",
     },
     "C15": {
-        "text": "Every public SVG operation (27, in place and copying) applied from each cache state class (fresh; cache populated by a query; cache dirty after each of 9 in-place shape edits) on documents with symbolic numbers: result equals (canonical XML, numbers provably equal) the result after serialise+reparse of a twin object with the same history; copies leave the receiver's serialisation unchanged; in-place returns the receiver.",
+        "text": "Every public SVG operation (27, in place and copying) applied from each cache state class (fresh; cache populated by a query; cache dirty after each of 9 in-place shape edits) on documents with symbolic numbers: result equals (canonical XML, numbers provably equal) the result after serialise+reparse of a twin object with the same history; copies leave the receiver's serialisation unchanged; in-place returns the receiver. Documents basic/pico/styled(+nested), 29 operations incl. inheritable attributes set on groups and the root viewBox replaced, read-then-edit histories.",
         "note": _PIPE_NOTE.replace("round is the identity in this harness; ", "") + " The quantifier over histories is covered by the state-class argument (one step from every class), argued not proved; the solver contributes universality over the numbers and numeric forks.",
         "design_ref": "DESIGN.md 2/C15",
     },
     "C16": {
-        "text": "Set iteration order as an explorer-chosen input (modules re-loaded inside the explored function with order-aware sets, one iteration event permuted at a time), baseline and permuted conversion inside one symbolic path on templates with symbolic numbers: same structure and provably equal numbers (SMT validity); plus convert(B) after convert(A) in one module instance vs a fresh one for all ordered pairs of 6 documents. Refutations replayed across PYTHONHASHSEED values / processes on the real package.",
+        "text": "Set iteration order as an explorer-chosen input (modules re-loaded inside the explored function with order-aware sets, one iteration event permuted at a time), baseline and permuted conversion inside one symbolic path on templates with symbolic numbers: same structure and provably equal numbers (SMT validity); plus convert(B) after convert(A) in one module instance vs a fresh one for all ordered pairs of 6 documents. Refutations replayed across PYTHONHASHSEED values / processes on the real package. Also symbolic histories (B = A with one number replaced by an independent symbol, B-after-A vs B-fresh), C-level set algebra routed through the order-aware set, attribute order compared, an allow_text case.",
         "note": "orders are enumerated by the explorer (the SMT part is the equality of the numbers across orders); interactions between two permuted sets not explored; nondeterminism inside lxml/Skia and OS effects outside.",
         "design_ref": "DESIGN.md 2/C16",
     },
